@@ -271,10 +271,18 @@ impl<R: BufRead> StreamDecryptor<R> {
         let to_read = buf_size - current_len;
 
         self.buffer.truncate(current_len);
-        let read = fill_buffer_bytes(&mut self.source, &mut self.buffer, buf_size)?;
-        self.in_buffer_end += read;
         // reset out buffer
         self.out_buffer_start = 0;
+        let read = match fill_buffer_bytes(&mut self.source, &mut self.buffer, buf_size) {
+            Ok(read) => read,
+            Err(err) => {
+                // What was read before the source failed is pending input,
+                // so that the call can be repeated.
+                self.in_buffer_end = self.buffer.len();
+                return Err(err);
+            }
+        };
+        self.in_buffer_end += read;
 
         if read < to_read {
             debug!("source finished reading");
